@@ -63,3 +63,30 @@ Definition qf_case := (hash * list block * option block)%type.
 Definition check_qf (c : qf_case) : bool :=
   let '(h, replies, o) := c in oblock_eqb (request_block_qf h replies) o.
 Definition qf_mismatches := mismatches_with check_qf.
+
+(* Step-wise form: after every operation the harness also reads pruneHeight and, where there is a
+   committer, viewStates.CommittedBlock(); the kernel compares them after the same step of the model
+   (an error path that silently prunes or moves the committed block shows up at that step). *)
+Definition peek := (option view * option block)%type.
+Definition peek_ok (s : sys) (p : peek) : bool :=
+  match fst p with Some v => prune_height (s_store s) =? v | None => true end &&
+  match snd p with Some c => block_eqb (s_committed s) c | None => true end.
+
+Fixpoint run_check (filtered : bool) (s : sys) (steps : list (op * obs * peek)) : bool * sys :=
+  match steps with
+  | [] => (true, s)
+  | (o, x, p) :: r =>
+      let '(s1, x1) := step filtered s o in
+      if obs_eqb x1 x && peek_ok s1 p then run_check filtered s1 r else (false, s1)
+  end.
+
+Record pcase := PC {
+  p_filtered : bool;
+  p_genesis : block;
+  p_steps : list (op * obs * peek);
+  p_dump : dump
+}.
+Definition check_pcase (c : pcase) : bool :=
+  let '(ok, s) := run_check (p_filtered c) (new_sys (p_genesis c)) (p_steps c) in
+  ok && dump_matches s (p_dump c).
+Definition step_mismatches := mismatches_with check_pcase.
